@@ -15,7 +15,8 @@ def rand_str(rng, alphabet=CRIT, maxlen=8):
 
 
 PATHS = ['/a[1]', '/a/b[2]', '/p:a/p:b[1]', '/*/*[3]', '/a/comment()[1]', '/a/b/c[10]', 'node', '/a[1]/b[1]']
-NAMES = ['a', 'b', 'k', '{urn:p}a', '{http://x.y/z}name', 'xml:id', 'p:q', 'tag', 'name-1', 'é']
+NAMES = ['a', 'b', 'k', '{urn:p}a', '{http://x.y/z}name', 'xml:id', 'p:q', 'tag', 'name-1', 'é',
+         'null', 'true', 'false', 'NaN', 'Infinity', 'e1', 'x0', '_1', 'insert', 'delete']   # names that LOOK like JSON / numbers / keywords
 
 
 def rand_action(rng, wf=True):
